@@ -79,7 +79,32 @@ impl<const N: usize> io::Write for ArraySink<N> {
     }
 }
 
+/// N symbolic bytes, one nondeterministic value per byte (so that a
+/// counterexample trace lists each byte on its own).
+///
+/// Only in the value-extraction re-run of a *failed* harness
+/// (`--cfg verif_playback`, never in a deciding run) an assumption that
+/// mentions every byte keeps them all in CBMC's formula slice, so that the
+/// trace is complete and positions are exact; it excludes 1/256 of the inputs,
+/// which is harmless there because the extracted values are only a candidate
+/// that is then validated by running the real code natively.
 #[cfg(kani)]
-pub fn any_bytes<const N: usize>() -> [u8; N] {
-    kani::any()
+pub fn sym_bytes<const N: usize>() -> [u8; N] {
+    let mut a = [0u8; N];
+    let mut i = 0;
+    while i < N {
+        a[i] = kani::any();
+        i += 1;
+    }
+    #[cfg(verif_playback)]
+    {
+        let mut x = 0u8;
+        let mut j = 0;
+        while j < N {
+            x = (x ^ a[j]).rotate_left(1);
+            j += 1;
+        }
+        kani::assume(N == 0 || x != 0xA7);
+    }
+    a
 }
